@@ -2,8 +2,11 @@
  * Source: C16 "the angle difference and its error term sum exactly to the true difference reduced modulo 360" -- of this,
  * the range, the NaN behaviour and the sign conventions at 0 and +/-180 are decided here; the exactness of d + e is not
  * (it needs the exact sum of two doubles: thorough tier / bounded, see DESIGN). */
-/*@ clause frame src=property props=C14 */
+/*@ clause frame src=property props=C14 only=enforce */
 __CPROVER_assigns(*e, vm_last_k)
+/*@ clause frame.caller src=property only=replace */
+/* the ghost variables of the model / captures are not part of what a caller sees */
+__CPROVER_assigns(*e)
 /*@ clause post.nan src=property props=C13,C16 */
 __CPROVER_ensures(isnan(__CPROVER_return_value) == (isnan(x) || isnan(y) || isinf(x) || isinf(y)))
 /*@ clause post.range src=property props=C16 */
